@@ -2987,11 +2987,17 @@ class Choice(Set):
 
     def __eq__(self, other):
         if self._componentValues:
+            if isinstance(other, Choice) and other._currentIdx is not None:
+                # two CHOICE values are equal when the same alternative holds equal values
+                return (self.getName() == other.getName() and
+                        self._componentValues[self._currentIdx] == other.getComponent())
             return self._componentValues[self._currentIdx] == other
         return NotImplemented
 
     def __ne__(self, other):
         if self._componentValues:
+            if isinstance(other, Choice) and other._currentIdx is not None:
+                return not self == other
             return self._componentValues[self._currentIdx] != other
         return NotImplemented
 
